@@ -130,6 +130,9 @@ static Built prebuild(const Elem & e, long cont) {
         if (!any || inside(sc.addr, sc.size) || sc.path == "apiMajor" || sc.path.find("_present") != std::string::npos) b.cmp.insert(sc.path);
     for (auto & v : l.vars)
         if (!any || v.count == 0 || inside(v.data, v.count * v.elem)) b.cmp.insert(v.path);
+    if (any)
+        for (auto & rf : uni::required_fields(e.spec, *o))
+            if (!b.cmp.count(rf)) b.cmp.insert(rf);   /* part of the selected layout variant: must come back (reported by the comparison) */
     std::unique_ptr<ObjectHeaderBase> o2(File::createObject(o->objectType));
     if (!o2) b.ok = false;
     return b;
